@@ -85,6 +85,35 @@ theorem lyb_term_value_roundtrip (P : Params) (hP : P.Ok) (d : Nat) (ty : LTy) (
     ∃ r', pValue P ty r = some (r', v) ∧ At P d K r' :=
   value_at P hP d ty v ops ho hc K r h
 
+/-! ## annotations of a module the parsing context does not have (finding F331) -/
+
+/-- **Skip branch of `lyb_parse_metadata`, repaired** (`fixes/F331.diff`): when the length fields are read with the widths
+the printer used (`R_METASKIPNAME = P_METANAME`, `R_METASKIPVAL = P_METAVAL` — the hypotheses are facts about the
+generated constants, closed by `rfl` on the repaired tree), skipping the name and the value of an annotation leaves the
+reader exactly behind it, whatever follows and wherever chunk boundaries fall. -/
+theorem lyb_meta_skip_fixed (hn : LybTree.R_METASKIPNAME = LybTree.P_METANAME) (hv : LybTree.R_METASKIPVAL = LybTree.P_METAVAL)
+    (P : Params) (hP : P.Ok) (d : Nat) (name val : Bytes) (x y : List Op)
+    (hx : strOps LybTree.P_METANAME name = some x) (hy : strOps LybTree.P_METAVAL val = some y) (K : List Op) (r : R)
+    (h : At P d (x ++ (y ++ K)) r) : At P d K (pMetaSkip P r) := by
+  simp only [pMetaSkip, hn, hv]
+  exact metaSkip_at P hP d name val x y hx hy K r h
+
+/-- "the skip branch lands behind the annotation" is **false** for the widths of the pinned tree (value length read on 2
+bytes, printed on 8 — finding F331, replayed on libyang: heap overflow in `ly_in_read`): after the annotation
+`hint = "hello"` followed by the flags word `7` the reader stands inside the value length field; the next four bytes it
+takes for the flags are `0 0 0 0`, then `0 0 104 101` … -/
+theorem lyb_meta_skip_fails :
+    ¬ ∀ (name val : Bytes) (tail : Bytes),
+        (pMetaSkipW Params.gen 2 2 { inp := leBytes 2 name.length ++ name ++ leBytes 8 val.length ++ val ++ tail }).inp = tail := by
+  intro H
+  have := H [104, 105, 110, 116] [104, 101, 108, 108, 111] [7, 0, 0, 0]
+  revert this
+  decide
+
+/-- … while with the printed widths the same input is passed exactly -/
+example : (pMetaSkipW Params.gen 2 8 { inp := leBytes 2 4 ++ [104, 105, 110, 116] ++ leBytes 8 5 ++ [104, 101, 108, 108, 111] ++ [7, 0, 0, 0] }).inp
+    = [7, 0, 0, 0] := by decide
+
 /-! ## non-vacuity -/
 
 /-- module `mod`: `container c { leaf b {type boolean;} leaf-list l {type uint8;} }`, `leaf e {type empty;}` -/
